@@ -172,6 +172,23 @@ def check_lookups(rep, prog):
         any(isinstance(x, Op) and x.op == "modfile" and x.args[0] == Const("pel.hwdiags.data") for x in walk(gl[0].data[1][0]))
     rep.check(okg, rule, "chip data files = *.json next to pel.hwdiags.data", PD + ".__init__", "glob.glob(os.path.join(data_path, '*.json'))",
               "chip data files are not discovered as *.json in the pel.hwdiags.data package directory")
+    # every data file found is kept, however complete it is (partial chip data still names what it knows): whether a file is
+    # stored may depend on its being readable, never on which sections it contains
+    dstore = [e for e in I3.events if e.kind == "dict_store" and e.func == PD + ".__init__" and e.loops]
+    okl = bool(dstore)
+    why = "no per-file store into the chip data table"
+    for e in dstore:
+        L_ = e.loops[-1]
+        base = getattr(L_, "body_guard_full", set()) | getattr(L_, "body_guard_set", set())
+        extra = [c for c in (e.guard.args if isinstance(e.guard, Op) and e.guard.op == "and" else (e.guard,)) if c not in base]
+        content = [c for c in extra if c != TRUE and not ((isinstance(c, Sym) and c.kind == "exc") or
+                                            (isinstance(c, Op) and c.op == "not" and isinstance(c.args[0], Sym) and c.args[0].kind == "exc"))]
+        if content:
+            okl = False
+            why = "a data file is kept only under %s" % (repr(and_(*content))[:120],)
+    rep.check(okl, rule, "every chip data file that can be read is kept, complete or partial", PD + ".__init__", "self._data[...] = data",
+              "chip data files are filtered by their content (%s): a partial data file is ignored as a whole and everything it does "
+              "describe falls back to raw numbers" % why)
 
 
 def check_src_parser(rep, prog):
